@@ -26,30 +26,82 @@ C01_LR = H("c01::proofs::c01_lr_w1x2_r2_k3", Q, lr=True,
            what="real half_lock.rs: 1 writer thread x 2 store(), 2 reader threads (read, use, use, drop)",
            bounds="Lal-Reps K=3 rounds, 3 threads, spin bound 4, unwind 8")
 
+C05_CONCRETE = H("c05::proofs::c05_q_concrete_history", Q, also=["C02"],
+    what="real registry, concrete 12-step history on 2 signals: fresh ascending ids, delivery order, stale/foreign ids, cross-signal independence, unregister_signal, handler stays installed with SA_RESTART|SA_SIGINFO",
+    bounds="fixed history; symbolic part: none besides kernel model (harness is the sanity anchor of the symbolic ones)")
+C05_UNREG_ANY = H("c05::proofs::c05_q_unregister_any", Q, also=["C02"],
+    what="unregister of ANY (signal, u128 id) pair from a three-action state vs list model; publishes exactly once iff something was removed",
+    bounds="state: 2 actions on SIGUSR1, 1 on SIGUSR2; id ranges over all of u128")
+C05_STEPS = [
+    H("c05::proofs::c05_step_register", T, timeout=3000, what="one register() from any valid registry state vs list model", bounds="state <=2 signals, <=2+1 actions, symbolic ids/next_id"),
+    H("c05::proofs::c05_step_unregister", T, timeout=3000, also=["C02"], what="one unregister(any signal, any u128 id) from any valid state", bounds="as above"),
+    H("c05::proofs::c05_step_unregister_signal", T, timeout=3000, what="one unregister_signal() from any valid state", bounds="as above"),
+    H("c05::proofs::c05_step_deliver", T, timeout=3000, also=["C02"], what="one delivery from any valid state: exactly the signal's actions, in order, one read section per snapshot", bounds="as above"),
+    H("c05::proofs::c05_q_history", T, timeout=3000, also=["C02"], what="3 registrations, deliveries, then unregister of any (signal,id)", bounds="symbolic u128 id and signal"),
+]
+C09_NEST = [
+    H("c09::proofs::c09_nest_delivery_inside_consumer", Q, also=["C10"], timeout=2400,
+      what="a complete delivery (real dispatcher + exfiltrating action) nested at every system call / slot access of one consumer iteration (read, drain, scan); next iteration must not sleep with the signal unreported",
+      bounds="NEST depth 1, 1 nested delivery + 1 earlier delivery or stale wake-up byte; 4-entry slot table"),
+    H("c09::proofs::c09_nest_consumer_inside_delivery", Q, timeout=2400,
+      what="a complete consumer iteration (another thread) nested at every system call / slot access of the delivering action (between store and wake)",
+      bounds="NEST depth 1, 1 nested consumer iteration"),
+]
+C11_NEST = [
+    H("c09::proofs::c11_nest_close_inside_poll", Q, also=["C10"], timeout=2400,
+      what="close() nested at every check of the closed flag / system call of one poll_signal() call with an async-style readiness callback; a following poll",
+      bounds="NEST depth 1, close before or inside the call"),
+    H("c09::proofs::c11_nest_close_inside_wait", Q, also=["C10"], timeout=2400,
+      what="close() nested anywhere inside a blocking wait; two later waits must return", bounds="NEST depth 1"),
+]
+C12_ALL = [
+    H("c12::proofs::c12_panicking_inputs_refused_cleanly", Q, also=["C14"], what="add_signal(too large / negative / beyond table / c_int::MAX): never returns, no state change, instance lock not held when the refusal is raised", bounds="4 input classes; 4-entry table in verification builds"),
+    H("c12::proofs::c12_survives_poisoned_lock", Q, what="from 'ids lock poisoned by an earlier caught panic': add_signal of a valid signal completes and takes effect", bounds="-"),
+    H("c12::proofs::c12_err_path_signal_only", Q, what="kernel-rejected add_signal: Err, nothing changes, retry identical, later valid add works, re-add is a no-op, earlier signal still delivered (SignalOnly)", bounds="-"),
+    H("c12::proofs::c12_err_path_raw_siginfo", Q, what="same with WithRawSiginfo (lazily initialised per-signal channel)", bounds="-"),
+    H("c12::proofs::c12_drop_with_poisoned_lock", T, timeout=3000, what="dropping an instance whose lock is poisoned completes and unregisters", bounds="-"),
+    H("c12::proofs::c12_drop_cleans_up", T, timeout=3000, what="drop of instance + handle clones: exactly its registrations removed, both pipe ends closed once", bounds="2 signals, 2 handle clones"),
+    H("c12::proofs::c12_failed_constructor_leaves_nothing", T, timeout=3000, what="Signals::new with a rejected second signal: nothing registered, pipe closed", bounds="-"),
+]
+def c14(e, tiers):
+    return [H("c14::proofs::c14_forbidden_%s" % e, tiers, what="forbidden signal (5 of them, slot present or not) through %s: panics before anything changes" % e, bounds="all 5 forbidden signals"),
+            H("c14::proofs::c14_rejected_%s" % e, tiers, what="any c_int the kernel rejects through %s: Err, nothing changed, would-be action and captures released once" % e, bounds="all kernel-rejected c_int values")]
+
 CATALOGUE = {
     "C01": [C01_LR],
-    "C05": [
-        H("c05::proofs::c05_q_history", Q, also=["C02"],
-          what="real registry: 3 registrations on 2 signals, deliveries, unregister of ANY (signal,id) pair, re-register, unregister_signal; vs list model",
-          bounds="fixed 11-operation history, symbolic id (u128) and signal pairing; maps <=2 signals x <=3 actions"),
-        H("c05::proofs::c05_step_register", T, timeout=2400,
-          what="one register() from any valid registry state vs list model", bounds="state <=2 signals, <=2+1 actions, symbolic ids/next_id"),
-        H("c05::proofs::c05_step_unregister", T, timeout=2400, also=["C02"],
-          what="one unregister(any signal, any u128 id) from any valid state", bounds="as above"),
-        H("c05::proofs::c05_step_unregister_signal", T, timeout=2400,
-          what="one unregister_signal() from any valid state", bounds="as above"),
-        H("c05::proofs::c05_step_deliver", T, timeout=2400, also=["C02"],
-          what="one delivery from any valid state", bounds="as above"),
+    "C02": [C05_CONCRETE, C05_UNREG_ANY,
+            H("c05::proofs::c05_step_deliver", T, timeout=3000, what="one delivery from any valid state", bounds="symbolic state"),
+            H("c02::proofs::c02_nest_unregister", T, timeout=3600, what="deliveries nested at every shim point of unregister(): each runs the old or the new action list", bounds="NEST depth 1, <=2 nested deliveries"),
+            H("c02::proofs::c02_nest_register", T, timeout=3600, what="deliveries nested at every shim point of register()", bounds="NEST depth 1, <=2 nested deliveries")],
+    "C03": [
+        H("c03::proofs::c03_control_alloc_is_seen", Q, what="positive control: an action that allocates trips the allocation flag (allocator entry points are stubbed)", bounds="-"),
+        H("c03::proofs::c03_seq_builtin_actions", Q, timeout=2400, what="two deliveries through the real dispatcher into flag + self-pipe wake + conditional shutdown, pipe at any fill level: no lock/spin/alloc/free/blocking write, bounded steps", bounds="capacity 3"),
+        H("c03::proofs::c03_seq_iterator_action", Q, timeout=2400, what="same for the iterator's exfiltrating action, self-pipe at any fill level", bounds="capacity 4"),
+        H("c03::proofs::c03_lr_delivery_vs_mutator", T, lr=True, timeout=3600, what="a delivery on thread 1 while thread 0 is anywhere inside unregister()/register()", bounds="Lal-Reps K=3"),
     ],
+    "C04": [
+        H("c04::proofs::c04_seq_chain_all_dispositions", Q, what="previous disposition in {default, ignore, 1-arg handler, 3-arg SA_SIGINFO handler}; deliveries before the take-over, after it, after another signal's first registration: chained exactly once, first, right convention and arguments", bounds="4 dispositions x 3 arrival instants"),
+        H("c04::proofs::c04_chain_first_registration", T, timeout=3600, what="same with the kernel delivering at every shim point / system call of the first registration (nested)", bounds="NEST depth 1, <=2+1 nested deliveries"),
+    ],
+    "C05": [C05_CONCRETE, C05_UNREG_ANY] + C05_STEPS,
     "C06": [
-        H("c06::proofs::c06_seq_send_step", Q, what="one send() from any well-formed channel state (<=2 indices in flight) vs 5-bounded FIFO", bounds="all 2^16 x 2^16 queue words satisfying the representation invariant; payload u8"),
+        H("c06::proofs::c06_seq_send_step", Q, what="one send() from any well-formed channel state (<=2 indices in flight) vs 5-bounded FIFO", bounds="all queue words satisfying the representation invariant; payload u8"),
         H("c06::proofs::c06_seq_recv_step", Q, what="one recv() from any well-formed channel state vs FIFO pop", bounds="as above"),
         H("c06::proofs::c06_new_is_empty", Q, what="Channel::new() is empty and well-formed", bounds="-"),
+        H("c06::proofs::c08_nest_send", T, timeout=3600, judge_repo_panics=True, also=["C08"], what="send() with complete send/recv nested at every shim point, spurious CAS failures; tag accounting", bounds="NEST depth 1, 2 nested ops, 1 spurious failure"),
     ],
     "C07": [
         H("c07::proofs::c07_lr_reuse_k3", Q, lr=True, what="consumer takes the only queued value, producer's send reuses that cell: happens-before under declared orderings, drops", bounds="Lal-Reps K=3, 2 threads, <=1 spurious CAS failure"),
-        H("c07::proofs::c07_lr_p2_c1_k3", T, lr=True, timeout=3000, what="2 producers (2+1 sends), 1 consumer (3 recvs): cell races, exactly-once drop, FIFO clauses", bounds="Lal-Reps K=3, 3 threads, <=1 spurious CAS failure"),
+        H("c07::proofs::c07_lr_p2_c1_k3", T, lr=True, timeout=3600, what="2 producers (2+1 sends), 1 consumer (3 recvs): cell races, exactly-once drop, FIFO clauses", bounds="Lal-Reps K=3, 3 threads, <=1 spurious CAS failure"),
     ],
+    "C08": [
+        H("c06::proofs::c08_nest_send", Q, timeout=2400, judge_repo_panics=True, also=["C06"], what="send() from any well-formed state with complete send/recv nested at every shim point and spurious weak-CAS failures: no panic, no waiting, bounded own steps, tag accounting", bounds="NEST depth 1, 2 nested operations, 1 spurious failure, <=1 index in flight"),
+        H("c06::proofs::c08_nest_recv", Q, timeout=2400, judge_repo_panics=True, also=["C06"], what="recv() likewise", bounds="as above"),
+    ],
+    "C09": C09_NEST + [H("c09::proofs::c10_seq_counts_signal_only", T, also=["C10"], timeout=2400, what="sequential histories of deliveries and pending() batches", bounds="3 steps")],
+    "C10": [H("c09::proofs::c10_seq_counts_signal_only", Q, also=["C09"], timeout=2400, what="histories of deliveries (watched and unwatched signal) and pending() batches: yields <= deliveries, nothing unwatched, nothing reported twice", bounds="3 steps + 2 final batches")] + C09_NEST[:1],
+    "C11": C11_NEST,
+    "C12": C12_ALL,
     "C13": [
         H("c13::proofs::c13_wake_pipe", Q, what="pipe.rs on a pipe at any fill level: register, burst of 1..2 deliveries, unregister, delivery", bounds="capacity 3, burst<=2"),
         H("c13::proofs::c13_wake_stream", Q, what="same on a stream socket", bounds="capacity 3, burst<=2"),
@@ -57,6 +109,10 @@ CATALOGUE = {
         H("c13::proofs::c13_wake_regular_file", T, what="same on a regular file", bounds="burst<=2"),
         H("c13::proofs::c13_rejected_registration", Q, what="invalid descriptor / fcntl failure / kernel-rejected signal: descriptor closed once, nothing registered", bounds="3 rejection causes"),
     ],
+    "C14": c14("registry_register", Q) + c14("flag_register", Q) + c14("pipe_register_raw", Q)
+           + [H("c14::proofs::c14_unchecked_pass_verdict_through", Q, what="register_unchecked / register_signal_unchecked with forbidden numbers: the kernel's verdict is returned", bounds="5 forbidden signals x 2 entry points")]
+           + c14("registry_register_sigaction", T) + c14("flag_register_usize", T) + c14("flag_conditional_shutdown", T) + c14("flag_conditional_default", T)
+           + [C12_ALL[0]],
     "C15": [
         H("c15::proofs::c15_flags_hold_value", Q, what="flag::register / register_usize through the real dispatcher, application writes in between", bounds="any bool/usize values, 2 deliveries"),
         H("c15::proofs::c15_conditional_shutdown", Q, what="conditional shutdown + arming flag, both registration orders, any status (c_int), every arm/disarm/deliver history", bounds="history length 3"),
@@ -69,6 +125,12 @@ CATALOGUE = {
         H("proofs::c17_extract_all_bytes", Q, crate="kani17", guard=False,
           kani_flags="-Z c-ffi --c-lib /repo/src/low_level/extract.c",
           what="Origin::extract (real Rust + real extract.c) on every 128-byte siginfo_t", bounds="all 2^1024 byte patterns; x86-64 Linux layout"),
+    ],
+    "C18": [
+        H("c18::proofs::c18_seq_barrier_completes_when_idle", Q, what="two store() from any generation value with idle reader slots complete without a second spin", bounds="generation: all of usize"),
+        H("c18::proofs::c18_lr_barrier_progress", Q, lr=True, what="two readers finished by round K-2, the writer (last in each round) must be through its barrier in round K-1", bounds="Lal-Reps K=3, 3 threads"),
+        H("c18::proofs::c18_registry_tolerates_poison", Q, what="both registry writer mutexes poisoned: register/deliver/unregister still work; lock order data->fallback only", bounds="-"),
+        C12_ALL[1],
     ],
 }
 
